@@ -1,4 +1,5 @@
 import PyrefactModel.C16.Flow
+import PyrefactModel.C16.SideEffectLemmas
 /-!
 # C16 — code is treated as unreachable only when it really is (control-flow part)
 
@@ -30,6 +31,19 @@ theorem conditional_while_not_blocking (p : Par) (b : List Stmt) : blocks p (.wh
 theorem while_true_break_not_blocking (p : Par) (b : List Stmt) (h : hasBrkL b = true) :
     blocks p (.whileS .tt b) = false := by
   cases p <;> simp [blocks, h]
+
+/-- **Pointless means clean**: whatever `has_side_effect` reports free of side effects contains — anywhere: in a
+comprehension element, condition or iterable, a slice, a conditional expression, an f-string, a keyword value —
+no store except to `_`, no control transfer / definition / import, and no call whose callee is not whitelisted
+(methods of literals excepted), for every whitelist. -/
+theorem pure_sound (W : List String) (e : E) (h : hse W e = false) : Clean W e := hse_clean W e h
+
+/-- a call of an unknown function in a comprehension element is a side effect (the repaired clause) -/
+example : hse ["print"] (.comp [.call (.name "g" .load) [.name "x" .load] []] [(.name "x" .store, .coll [.const], [])]) = true := by
+  decide
+/-- `sorted([1], key=g)`: passing a callable to a whitelisted builtin is NOT flagged (known finding): the model
+agrees with the code, and `Clean` — which speaks about callees only — holds -/
+example : hse ["sorted"] (.call (.name "sorted" .load) [.coll [.const]] [.name "g" .load]) = false := by decide
 
 /-! non-vacuity: concrete shapes on both sides -/
 example : blocks .none (.whileS .tt [.ite .unk [.cont] [], .simple]) = true := by
